@@ -152,9 +152,12 @@ class Scheduler:
 class SchedLock:
   """Cooperative lock visible to the scheduler."""
 
-  def __init__(self, sched):
+  def __init__(self, sched, yield_on_release=False):
     self.sched = sched
     self.owner = None
+    # a pre-emption right after the lock is given up: the code that follows a datastore
+    # call works on what it has just read, outside any lock
+    self.yield_on_release = yield_on_release
 
   def __enter__(self):
     tid = getattr(_tls, 'tid', None)
@@ -172,6 +175,8 @@ class SchedLock:
       return False
     self.owner = None
     self.sched.unblock_waiters(self)
+    if self.yield_on_release:
+      self.sched.yield_point('released')
     return False
 
   # threading.Lock API used nowhere else in the servicer, kept for safety
@@ -209,7 +214,7 @@ def install(servicer, sched, datastore_lock=True):
     setattr(servicer, attr, collections.defaultdict(lambda: SchedLock(sched)))
   inner = getattr(servicer.datastore, '_inner', servicer.datastore)
   if datastore_lock and hasattr(inner, '_lock'):
-    inner._lock = SchedLock(sched)  # pylint: disable=protected-access
+    inner._lock = SchedLock(sched, yield_on_release=True)  # pylint: disable=protected-access
     return True
   return False
 
